@@ -99,7 +99,127 @@ def check_C16(tier, seed):
     return res.finish()
 
 
-CHECKS = {"C01": check_C01, "C02": check_C02, "C16": check_C16}
+# ---------------------------------------------------------------------------------------------
+# zones
+
+def zone_vectors(res, tier, seed, ops, tag):
+    """Run the scaled zone model (spec-level theorems + vector emission), group the vectors by zone and keep
+    the operations in `ops`. Returns the path of the grouped vector file."""
+    raw = os.path.join(C.OUT, f"{res.pid}-zonevec-raw.ndjson")
+    maxtr = 2 if tier == "quick" else 3
+    consts = dict(MaxTr=maxtr, EmitVec="TRUE", EmitMod=3 if tier == "quick" else 1, EmitRem=seed % 3 if tier == "quick" else 0)
+    res.add_mc(run_mc("MC_Zone", consts, workers=C.NCPU, vec_out=raw, timeout=6000, tag=tag, xmx="12g"))
+    groups = {}
+    order = []
+    for l in open(raw):
+        v = json.loads(l)
+        if v["op"] not in ops:
+            continue
+        zk = json.dumps(v.pop("zk"), sort_keys=True)
+        if zk not in groups:
+            groups[zk] = []
+            order.append(zk)
+        groups[zk].append(v)
+    out = os.path.join(C.OUT, f"{res.pid}-zonevec.ndjson")
+    with open(out, "w") as f:
+        for zk in order:
+            f.write(json.dumps({"op": "zone", "a": json.loads(zk), "g": 1}, separators=(",", ":")) + "\n")
+            for v in groups[zk]:
+                f.write(json.dumps(v, separators=(",", ":")) + "\n")
+    os.remove(raw)
+    return out
+
+
+def events_of(*gens_):
+    for g in gens_:
+        yield from g
+
+
+def check_C03(tier, seed):
+    res = Result("C03", tier, seed, "model_checking")
+    binary = need_binary(res)
+    rng = random.Random(seed * 7919 + 3)
+    vec = zone_vectors(res, tier, seed, {"lookup", "localtime"}, "C03")
+    run_pipeline(res, binary, "vec", vec_path=vec, validate=True, nshards=16)
+    os.remove(vec)
+    q = tier == "quick"
+    run_pipeline(res, binary, "sweep", gen_lines=gens.gen_c03_sweep(rng, 64 if q else 300), nshards=8 if q else 16)
+    run_pipeline(res, binary, "extreme", gen_lines=gens.gen_c03_extreme(rng, 150 if q else 3000), nshards=4 if q else 16)
+    run_pipeline(res, binary, "random", gen_lines=events_of(*(gens.gen_zone_session(rng, gens.gen_table_zone(rng, nmax=20), do_find=False) for _ in range(150 if q else 3000))), nshards=8 if q else 16)
+    res.notes["rule"] = "vectors: every zone of the scaled model (<= MaxTr transitions on 0..6, 5 type menus, 6 leap tables, rule none/fixed) x instants -7..14; events: table-length sweep 0..n with probes at every T-1/T/T+1, i64-extreme transition times, seeded random zones"
+    return res.finish()
+
+
+def check_C12(tier, seed):
+    res = Result("C12", tier, seed, "model_checking")
+    binary = need_binary(res)
+    rng = random.Random(seed * 7919 + 12)
+    vec = zone_vectors(res, tier, seed, {"lookup", "find"}, "C12")
+    run_pipeline(res, binary, "vec", vec_path=vec, validate=True, nshards=16)
+    os.remove(vec)
+    q = tier == "quick"
+    run_pipeline(res, binary, "leaps", gen_lines=gens.gen_c12(rng, 120 if q else 3000), nshards=8 if q else 16)
+    res.notes["rule"] = "vectors: scaled zones with leap tables (one record +-1 at 0/2/3/4) x instants; events: random valid leap tables (<= 40 records, both signs) and the real 27-record table with transitions at/around records; lookups reveal the forward conversion, Skipped entries the inverse"
+    return res.finish()
+
+
+def check_C13(tier, seed):
+    res = Result("C13", tier, seed, "model_checking")
+    binary = need_binary(res)
+    rng = random.Random(seed * 7919 + 13)
+    raw = os.path.join(C.OUT, "C13-vectors-raw.ndjson")
+    res.add_mc(run_mc("MC_Validity", dict(EmitVec="TRUE"), workers=C.NCPU, vec_out=raw, timeout=3000))
+    run_pipeline(res, binary, "vec", vec_path=raw, validate=True, nshards=8)
+    os.remove(raw)
+    q = tier == "quick"
+    run_pipeline(res, binary, "defects", gen_lines=gens.gen_c13(rng, 3000 if q else 60000), nshards=8 if q else 16)
+    res.notes["rule"] = "vectors: every small zone tuple of MC_Validity (valid ones and each defect); events: seeded valid zones with exactly one defect of each kind (index, order, leap table, rule disagreement in one attribute, i64 extremes), local time types over length 0..9 designations"
+    return res.finish()
+
+
+def check_find(pid, tier, seed):
+    res = Result(pid, tier, seed, "model_checking")
+    binary = need_binary(res)
+    rng = random.Random(seed * 7919 + int(pid[1:]))
+    vec = zone_vectors(res, tier, seed, {"find"}, pid)
+    if pid == "C17":
+        # turn every search vector into buffer-based searches with every buffer length 0..4 (k <= 4 in the scaled model)
+        v2 = vec + ".n"
+        with open(v2, "w") as f:
+            for l in open(vec):
+                e = json.loads(l)
+                if e["op"] == "find":
+                    for n in rng.sample(range(0, 6), 2):
+                        a = dict(e["a"]); a["n"] = n
+                        f.write(json.dumps({"op": "findn", "a": a}, separators=(",", ":")) + "\n")
+                else:
+                    f.write(l)
+        os.replace(v2, vec)
+    run_pipeline(res, binary, "vec", vec_path=vec, validate=True, nshards=16)
+    os.remove(vec)
+    q = tier == "quick"
+    run_pipeline(res, binary, "zones", gen_lines=gens.gen_find_zones(rng, 200 if q else 4000, findn=(pid == "C17")), nshards=8 if q else 16)
+    res.notes["rule"] = "vectors: every zone of the scaled model x local seconds -7..14 (expected list and accessors emitted where instants are pairwise distinct); events: seeded valid zones (1..40 transitions, small/tiny/full-range offsets, gaps smaller than offset differences, leap tables, fixed rule), local times within one second of every transition +- offset"
+    return res.finish()
+
+
+def check_C14(tier, seed):
+    res = Result("C14", tier, seed, "model_checking")
+    binary = need_binary(res)
+    rng = random.Random(seed * 7919 + 14)
+    vecraw = os.path.join(C.OUT, "C14-vectors.ndjson")
+    mc_calendar(res, tier, seed, vecraw)
+    os.remove(vecraw)
+    q = tier == "quick"
+    run_pipeline(res, binary, "constructors", gen_lines=gens.gen_c14(rng, 20000 if q else 300000), nshards=8 if q else 16)
+    run_pipeline(res, binary, "find-entries", gen_lines=gens.gen_find_zones(rng, 60 if q else 1500), nshards=8 if q else 16)
+    res.notes["rule"] = "MC_Calendar checks DtInv on constructed values for every walked day; events: five constructors, projection and comparison over the whole instant range and i32 offsets; every date-time inside every search result"
+    return res.finish()
+
+
+CHECKS = {"C01": check_C01, "C02": check_C02, "C16": check_C16, "C03": check_C03, "C12": check_C12, "C13": check_C13,
+          "C05": lambda t, s: check_find("C05", t, s), "C06": lambda t, s: check_find("C06", t, s), "C17": lambda t, s: check_find("C17", t, s),
+          "C14": check_C14}
 
 
 def main(argv):
